@@ -71,6 +71,11 @@ def gen_layout(rng):
     lay = {'zero_mode': zero, 'tables': {}}
     for t in ('c', 'd', 'h', 'i'):
         lay['tables'][t] = gen_block(rng, t in ('c', 'd'), zero)
+    if rng.random() < 0.1:
+        # some tables left at the datastore's constructor default (fully populated, all zero)
+        for t in rng.sample(['c', 'd', 'h', 'i'], rng.randint(2, 4)):
+            lay['tables'][t] = {'kind': 'default'}
+        return lay
     share = {}
     if rng.random() < 0.12:
         share['d'] = 'c'
@@ -130,7 +135,14 @@ class Uniq(object):
 # ----------------------------------------------------------------- requests
 def pick_range(rng, unit, table, maxq):
     """A valid (addr, qty) inside table `table` of RefUnit `unit`, biased to edges."""
-    runs = runs_of(unit.table(table).keys())
+    tab = unit.table(table)
+    if getattr(tab, 'full', None) is not None:
+        # fully populated default table: stay near the ends and a few interior spots
+        lo, hi = tab.full[0], tab.full[1]
+        base = rng.choice([lo, lo + 1, 7, 100, 1000, 40000, hi - 300, hi - 1, hi])
+        runs = [(max(lo, min(base, hi)), min(300, hi - max(lo, min(base, hi)) + 1))]
+    else:
+        runs = runs_of(tab.keys())
     if not runs:
         return None
     s, n = rng.choice(runs)
@@ -187,11 +199,15 @@ def gen_valid(rng, unit, uniq, fcs=None):
 def gen_invalid(rng, unit, uniq):
     """A request with exactly the kinds of fault C05 lists (well-formed PDU)."""
     kind = rng.choice(['qty0', 'qtybig', 'qtymax1', 'addr_lo', 'addr_hi', 'addr_far', 'bytecount',
-                       'coilword', 'unknownfc', 'rw_one_bad', 'addr_wrap', 'qtybig', 'addr_hi'])
+                       'coilword', 'unknownfc', 'rw_one_bad', 'addr_wrap', 'qtybig', 'addr_hi', 'across_hole'])
     fc = rng.choice([1, 2, 3, 4, 5, 6, 15, 16, 22, 23])
     t = refdev.TABLE_OF_FC[fc]
     lim = {1: 2000, 2: 2000, 3: 125, 4: 125, 15: 1968, 16: 123, 23: 125}.get(fc, 1)
-    runs = runs_of(unit.table(t).keys())
+    tab_ = unit.table(t)
+    if getattr(tab_, 'full', None) is not None:
+        runs = [(tab_.full[0], tab_.full[1] - tab_.full[0] + 1)]
+    else:
+        runs = runs_of(tab_.keys())
     s, n = rng.choice(runs) if runs else (0, 0)
 
     def build(addr, qty):
@@ -213,6 +229,15 @@ def gen_invalid(rng, unit, uniq):
         if fc == 23:
             nr = min(max(qty, 1), 121)
             return codec.req_read_write(addr, qty & 0xFFFF, s & 0xFFFF, [uniq.next() for _ in range(min(nr, max(n, 1)))])
+    if kind == 'across_hole':
+        # a range whose first and last cells exist but which spans unpopulated addresses (sparse block)
+        cands = [(a, b) for a, b in zip(runs, runs[1:]) if b[0] - (a[0] + a[1]) >= 1 and b[0] + 1 - a[0] <= lim]
+        if not cands or fc in (5, 6, 22):
+            return None
+        a, b = rng.choice(cands)
+        start = rng.randint(max(a[0], b[0] + 1 - lim), a[0] + a[1] - 1)
+        end = rng.randint(b[0], min(b[0] + b[1] - 1, start + lim - 1))
+        return build(start, end - start + 1)
     if kind == 'unknownfc':
         return bytes([rng.choice(UNKNOWN_FCS)]) + bytes(rng.randrange(256) for _ in range(rng.choice([0, 1, 4])))
     if kind == 'qty0':
@@ -263,7 +288,8 @@ def gen_invalid(rng, unit, uniq):
         good = pick_range(rng, unit, 'h', 20)
         if not good:
             return None
-        hr = runs_of(unit.table('h').keys())
+        th = unit.table('h')
+        hr = [(th.full[0], th.full[1] - th.full[0] + 1)] if getattr(th, 'full', None) is not None else runs_of(th.keys())
         s2, n2 = hr[-1]
         bad = (s2 + n2 - 1, 3)
         if rng.random() < 0.5:
@@ -794,7 +820,7 @@ class Analysis(object):
         for u, mm in model.items():
             for t in ('c', 'd', 'h', 'i'):
                 if mm.alias[t] == t:
-                    mm.store[t] = dict(dump[u][t])
+                    mm.store[t].cells = dict(dump[u][t])
 
     @staticmethod
     def _diff(got, want):
